@@ -204,6 +204,18 @@ class VOpaque(V):
         return "VOpaque(%s)" % self.tag
 
 
+class OptKw(V):
+    """f(**d) where d holds key k only under guard g: the keyword is passed iff g (else the parameter's default applies).
+    Only the binders that resolve it (bind_params, record constructors) may see it; every other callee refuses."""
+    kind = "optkw"
+
+    def __init__(self, g, v):
+        self.g, self.v = g, v
+
+    def __repr__(self):
+        return "OptKw(%r)" % (self.v,)
+
+
 class VRegex(V):
     """A compiled regular expression (re.compile of a constant pattern): see pyvc.regex.Compiled."""
     kind = "regex"
